@@ -1,0 +1,10 @@
+//go:build !verif
+
+// Package verifhook provides scheduling hooks for the verification harness.
+// In normal builds every hook is a no-op.
+package verifhook
+
+import "context"
+
+// Yield does nothing outside verification builds.
+func Yield(ctx context.Context, site string) {}
